@@ -102,6 +102,26 @@ pub fn level_after(tc: &TreeCtx, level: &[usize], first: bool, colon: bool, path
 pub fn gen_datum(rng: &mut Rng, uniq: &mut u32) -> Datum {
     *uniq += 1;
     let u = *uniq;
+    // one datum in 24: a value at the edge of its type, decimal and non-decimal forms, signed
+    // and unsigned (the widest text a FORMATTED_SIZE buffer has to hold)
+    if rng.chance(1, 24) {
+        return match rng.below(14) {
+            0 => Datum::I64(i64::MIN),
+            1 => Datum::I64(i64::MAX),
+            2 => Datum::U64(u64::MAX),
+            3 => Datum::I16(*rng.pick(&[i16::MIN, i16::MAX, -1])),
+            4 => Datum::U8(255),
+            5 => Datum::Hex(*rng.pick(&[u32::MAX, 0, 0x8000_0000])),
+            6 => Datum::Oct(*rng.pick(&[u16::MAX, 0, 0x8000])),
+            7 => Datum::Bin(*rng.pick(&[255u8, 0, 128])),
+            8 => Datum::BinI8(*rng.pick(&[i8::MIN, i8::MAX, -1, 0, 1])),
+            9 => Datum::HexI16(*rng.pick(&[i16::MIN, i16::MAX, -1, 0, 1])),
+            10 => Datum::OctI64(*rng.pick(&[i64::MIN, i64::MAX, -1, 0, 1])),
+            11 => Datum::BinI8((u % 256) as u8 as i8),
+            12 => Datum::HexI16((u.wrapping_mul(40503) % 65536) as u16 as i16),
+            _ => Datum::OctI64((u as i64).wrapping_mul(0x9E37_79B9_7F4A_7C15u64 as i64)),
+        };
+    }
     match rng.below(18) {
         17 => Datum::ChrList(
             (0..rng.urange(1, 4))
@@ -848,7 +868,24 @@ pub fn apply_param_fault(rng: &mut Rng, u: &mut Unit, kind: &str, last_in_msg: b
             p = j;
         }
         "non_ascii_in_string" => {
-            insert_raw(u, j, vec![b'"', b'a', *rng.pick(&[0x80u8, 0xE9, 0xFF]), b'b', b'"']);
+            // either quote character, the offending byte anywhere in a string of 1..40 bytes,
+            // in front of or behind a doubled quote
+            let q = *rng.pick(&[b'"', b'\'']);
+            let hi = *rng.pick(&[0x80u8, 0xE9, 0xFF]);
+            let mut body: Vec<Vec<u8>> = Vec::new();
+            let n = *rng.pick(&[1usize, 2, 3, 8, 40]);
+            for k in 0..n {
+                body.push(if rng.chance(1, 4) { vec![q, q] } else { vec![b'a' + (k % 26) as u8] });
+            }
+            let pos = rng.usize_below(n);
+            body[pos] = vec![hi];
+            if pos > 0 && rng.chance(1, 2) {
+                body[pos - 1] = vec![q, q];
+            }
+            let mut raw = vec![q];
+            raw.extend(body.into_iter().flatten());
+            raw.push(q);
+            insert_raw(u, j, raw);
             p = j;
         }
         "non_ascii_in_expression" => {
